@@ -46,9 +46,98 @@ def _func_span(src: str, path: str, qual: Optional[str]):
     return start, end
 
 
+def _parse_unified(text: str):
+    """{relpath: [(old_start, old_lines, new_lines), ...]} of a `git diff`; None for anything
+    other than in-place modifications of text files."""
+    files: Dict[str, list] = {}
+    cur = None
+    hunk = None
+    for ln in text.split("\n"):
+        if ln.startswith("diff --git"):
+            cur = None
+            hunk = None
+        elif ln.startswith("--- "):
+            if ln[4:].strip() == "/dev/null":
+                return None
+        elif ln.startswith("+++ "):
+            tgt = ln[4:].strip()
+            if tgt == "/dev/null":
+                return None
+            cur = tgt[2:] if tgt.startswith(("a/", "b/")) else tgt
+            files[cur] = []
+        elif ln.startswith("@@") and cur is not None:
+            m = re.match(r"@@ -(\d+)(?:,\d+)? \+\d+(?:,\d+)? @@", ln)
+            if not m:
+                return None
+            hunk = (int(m.group(1)), [], [])
+            files[cur].append(hunk)
+        elif hunk is not None and cur is not None:
+            if ln.startswith("\\"):
+                continue
+            if ln.startswith("+"):
+                hunk[2].append(ln[1:])
+            elif ln.startswith("-"):
+                hunk[1].append(ln[1:])
+            elif ln.startswith(" ") or ln == "":
+                # a context line (git writes an empty context line as a single space; a trailing empty string ends the patch)
+                hunk[1].append(ln[1:])
+                hunk[2].append(ln[1:])
+    for hs in files.values():
+        for h in hs:
+            while h[1] and h[2] and h[1][-1] == "" and h[2][-1] == "" and len(h[1]) > 1:
+                # trailing empty strings produced by the final newline of the patch text
+                if h[1][-1] == h[2][-1] == "":
+                    h[1].pop()
+                    h[2].pop()
+                else:
+                    break
+    return files
+
+
+def apply_patch_overlay(patch_path: str, root: str) -> Optional[Dict[str, str]]:
+    """The sources of `root` with a unified diff applied in memory (hunks located by their
+    context: at the stated line, else at the only place where the old lines occur); None when
+    it does not apply to the current tree."""
+    try:
+        with open(patch_path, encoding="utf-8") as f:
+            files = _parse_unified(f.read())
+    except OSError:
+        return None
+    if not files:
+        return None
+    overlay: Dict[str, str] = {}
+    for rel, hunks in files.items():
+        path = os.path.join(root, rel)
+        if not os.path.exists(path) or not rel.endswith(".py"):
+            if rel.endswith(".py"):
+                return None
+            continue
+        with open(path, encoding="utf-8") as f:
+            lines = f.read().split("\n")
+        offset = 0
+        for start, old, new in hunks:
+            idx = start - 1 + offset
+            if idx < 0 or lines[idx:idx + len(old)] != old:
+                cands = [i for i in range(len(lines) - len(old) + 1) if lines[i:i + len(old)] == old]
+                if len(cands) != 1:
+                    return None
+                idx = cands[0]
+            lines[idx:idx + len(old)] = new
+            offset += len(new) - len(old)
+        src = "\n".join(lines)
+        try:
+            compile(src, path, "exec")
+        except SyntaxError:
+            return None
+        overlay[rel] = src
+    return overlay or None
+
+
 def apply_variant(v: dict, root: Optional[str] = None) -> Optional[Dict[str, str]]:
     """Return overlay {relpath: new source} or None if the anchor is not present."""
     root = root or repo_root()
+    if "patch" in v:
+        return apply_patch_overlay(v["patch"], root)
     overlay: Dict[str, str] = {}
     for ed in v["edits"]:
         rel = ed["file"]
@@ -125,6 +214,39 @@ def catalogue(pid: str) -> List[dict]:
         if "edits" not in v:
             v["edits"] = [{k: v[k] for k in ("file", "where", "old", "new") if k in v}]
         out.append(v)
+    return out + patch_catalogue(pid)
+
+
+VERIF_ROOT = os.path.dirname(os.path.dirname(os.path.abspath(__file__)))
+
+
+def patch_catalogue(pid: str) -> List[dict]:
+    """The independently written changes kept in the repository, as variants: every seeded
+    change written against this property must be reported by its check (`B`), every
+    behaviour-preserving patch must leave it silent (`N`).  Applied in memory like the others;
+    one that no longer applies to the current tree is skipped and counted."""
+    import json
+    out: List[dict] = []
+    sd = os.path.join(VERIF_ROOT, "seeded")
+    if os.path.isdir(sd):
+        for d in sorted(os.listdir(sd)):
+            mp = os.path.join(sd, d, "meta.json")
+            pp = os.path.join(sd, d, "patch.diff")
+            if not (os.path.isfile(mp) and os.path.isfile(pp)):
+                continue
+            try:
+                with open(mp) as f:
+                    meta = json.load(f)
+            except (OSError, ValueError):
+                continue
+            if meta.get("breaks_property") == pid:
+                out.append(dict(id=f"seed:{d}", kind="B", rule=None, patch=pp))
+    bd = os.path.join(VERIF_ROOT, "benign")
+    if os.path.isdir(bd):
+        for d in sorted(os.listdir(bd)):
+            pp = os.path.join(bd, d, "patch.diff")
+            if os.path.isfile(pp):
+                out.append(dict(id=f"benign:{d}", kind="N", patch=pp))
     return out
 
 
